@@ -495,6 +495,8 @@ class Messenger(Connection):
         # Set after SESS_TERM sent
         self._in_term = False
         self._in_term_func = None
+        # Set after SESS_TERM received
+        self._peer_term = False
 
         self._tls_attempt = False
         # Assume socket is ready
@@ -1028,6 +1030,7 @@ class Messenger(Connection):
         self._sessinit_this = None
         self._in_sess = False
         self._in_term = False
+        self._peer_term = False
 
         if not self._as_passive:
             # Passive side listens first
@@ -1043,6 +1046,7 @@ class Messenger(Connection):
         '''
         if not self._in_sess:
             raise RejectError(messages.RejectMsg.Reason.UNEXPECTED)
+        self._peer_term = True
 
     def recv_xfer_data(self, transfer_id, flags, data, ext_items):
         ''' Handle reception of XFER_DATA message.
@@ -1255,7 +1259,7 @@ class ContactHandler(Messenger, dbus.service.Object):
 
     def _check_sess_term(self):
         ''' Perform post-termination logic. '''
-        if self._in_term and self.is_sess_idle():
+        if self._in_term and self._peer_term and self.is_sess_idle():
             self._logger.info('Closing in terminating state')
             self.close()
 
